@@ -3,7 +3,7 @@
     Core Liquid Fragment, which the correspondence run ties to /repo).
     The theorems state the documented laws of that semantics. *)
 From LQ Require Import Core.Render Proofs.Value_proofs Proofs.Render_proofs Proofs.Render_buffer Proofs.Render_fuel Proofs.CrossModel.
-From LQ Require Import Proofs.Render_control Proofs.Render_lambda Proofs.Value_decimal Proofs.CrossModel_decimal Proofs.CrossModel_values.
+From LQ Require Import Proofs.Render_control Proofs.Render_counters Proofs.Render_lambda Proofs.Value_decimal Proofs.CrossModel_decimal Proofs.CrossModel_values.
 From LQ Require Kernels.FVal Kernels.FiltersStr Kernels.FiltersSeq Kernels.ObjAccess Kernels.Undefined Kernels.Json Kernels.Markup Kernels.Printer.
 
 (** Sequencing is compositional: rendering [l1 ++ l2] is rendering [l1] and
@@ -262,3 +262,40 @@ Theorem c01_loop_absorbs_break_and_continue : forall g rec x key len parent body
   st (for_iter g rec x key len parent body its i c b) <> SCont.
 Proof. exact for_iter_absorbs_break_continue. Qed.
 Print Assumptions c01_loop_absorbs_break_and_continue.
+
+(** Counters: n increments of x in a row write v, v+1, ..., v+n-1 (v = the
+    counter before, 0 if untouched), leave the counter at v+n, and touch no
+    other counter and no variable ... *)
+Theorem c01_increments_count : forall g ld fuel x n c b,
+  null b = false ->
+  let r := nodes (render g ld (S fuel)) (repeat (NIncrement x) n) c b in
+  st r = SDone /\
+  counter_val x (cx r) = (counter_val x c + Z.of_nat n)%Z /\
+  text (bf r) = text b ++ count_up (counter_val x c) n /\
+  null (bf r) = false /\
+  (forall y, y <> x -> counter_val y (cx r) = counter_val y c) /\
+  locals (cx r) = locals c /\ scopes (cx r) = scopes c.
+Proof. exact increments_count. Qed.
+Print Assumptions c01_increments_count.
+
+(** ... n decrements write v-1, ..., v-n and leave it at v-n. *)
+Theorem c01_decrements_count : forall g ld fuel x n c b,
+  null b = false ->
+  let r := nodes (render g ld (S fuel)) (repeat (NDecrement x) n) c b in
+  st r = SDone /\
+  counter_val x (cx r) = (counter_val x c - Z.of_nat n)%Z /\
+  text (bf r) = text b ++ count_down (counter_val x c) n /\
+  null (bf r) = false /\
+  (forall y, y <> x -> counter_val y (cx r) = counter_val y c) /\
+  locals (cx r) = locals c /\ scopes (cx r) = scopes c.
+Proof. exact decrements_count. Qed.
+Print Assumptions c01_decrements_count.
+
+(** Cycles are periodic: the j-th use of a cycle of n items picks item
+    (p + j) mod n (p = earlier uses), and does not advance any other cycle. *)
+Theorem c01_cycle_is_periodic : forall key n k c,
+  fst (cycle_run c key n k) = map (fun j => ((cycle_pos key c + Z.of_nat j) mod n)%Z) (seq 0 k) /\
+  cycle_pos key (snd (cycle_run c key n k)) = (cycle_pos key c + Z.of_nat k)%Z /\
+  (forall k', k' <> key -> cycle_pos k' (snd (cycle_run c key n k)) = cycle_pos k' c).
+Proof. exact cycle_is_periodic. Qed.
+Print Assumptions c01_cycle_is_periodic.
